@@ -1,10 +1,14 @@
 //! Driver for the Swarm / connection pool: connection lifecycle (C01, C02, C05, C06, C58), ...
 mod conn;
+mod cdial;
+mod dialplan;
 
 fn main() {
     let a = vcommon::Args::parse();
     match a.mode.as_str() {
         "conn" => conn::main(&a),
+        "dialplan" => dialplan::main(&a),
+        "cdial" => cdial::main(&a),
         m => {
             eprintln!("unknown mode {m}");
             std::process::exit(2)
